@@ -221,6 +221,46 @@ Theorem retry_env_outcome :
 Proof. exact retry_w_env_spec. Qed.
 Print Assumptions retry_env_outcome.
 
+(* retry_interval with NON-ZERO processing costs (every callback invocation takes ec_cost ticks, which _retry does not
+   charge to the timeout).  Then the retry interval is NOT irrelevant in general: each wake-up buys one more attempt,
+   so for now+T < tau <= now+T+(call costs) the outcome can depend on it.  The strongest statements that hold for every
+   retry interval (W = time spent in select(); rr_dt - W = the costs of the callback invocations):
+     - only success or TimeoutError;   success  => max(0, tau-now) <= rr_dt  and  W <= max(0, tau-now)
+                                       timeout  => tau > now+T               and  W = T
+     - if the fd is ready within T (tau <= now+T, costs not counted) the call succeeds whatever the retry interval. *)
+Theorem retry_interval_with_costs :
+  forall (e : envc) (fuel : nat) (ri T : tmo) (now : Z),
+    0 <= ec_cost e -> (match ri with None => True | Some x => 0 < x end) ->
+    (match T with Some t => 0 <= t | None => True end) ->
+    let r := retry_w (cb_envc e) (sel_envc e) fuel ri T now in
+    rr_out r <> RFuel ->
+    (((exists v T', rr_out r = ROk v T') /\ Z.max 0 (e_tau (ec_env e) - now) <= rr_dt r
+      /\ 0 <= sum_wait_el (rr_waits r) <= Z.max 0 (e_tau (ec_env e) - now))
+     \/ (rr_out r = RTimeout /\ exists t, T = Some t /\ now + t < e_tau (ec_env e) /\ sum_wait_el (rr_waits r) = t))
+    /\ (match T with Some t => e_tau (ec_env e) <= now + t | None => True end -> exists v T', rr_out r = ROk v T').
+Proof. exact retry_envc_facts. Qed.
+Print Assumptions retry_interval_with_costs.
+
+(* ... and two successful runs with different retry intervals differ in elapsed time by at most the call costs of
+   the slower one (the extra wake-ups). *)
+Theorem retry_interval_costs_elapsed_gap :
+  forall (e : envc) (T : tmo) (now : Z) (ri1 ri2 : tmo) (fuel1 fuel2 : nat),
+    0 <= ec_cost e ->
+    (match ri1 with None => True | Some x => 0 < x end) -> (match ri2 with None => True | Some x => 0 < x end) ->
+    (match T with Some t => 0 <= t | None => True end) ->
+    let r1 := retry_w (cb_envc e) (sel_envc e) fuel1 ri1 T now in
+    let r2 := retry_w (cb_envc e) (sel_envc e) fuel2 ri2 T now in
+    (exists v T', rr_out r1 = ROk v T') -> (exists v T', rr_out r2 = ROk v T') ->
+    rr_dt r1 - rr_dt r2 <= rr_dt r1 - sum_wait_el (rr_waits r1).
+Proof. exact retry_envc_elapsed_gap. Qed.
+Print Assumptions retry_interval_costs_elapsed_gap.
+
+(* the outcome does depend on the retry interval inside the window: tau = 10, T = 8, cost 1 per call *)
+Example retry_interval_matters_with_costs :
+  rr_out (retry_envc (mk_envc (mk_env 10 []) 1) 20 None (Some 8) 0) = RTimeout
+  /\ rr_out (retry_envc (mk_envc (mk_env 10 []) 1) 20 (Some 2) (Some 8) 0) = ROk tt (Some 2).
+Proof. vm_compute. split; reflexivity. Qed.
+
 (* the world-state loop retry_w used above is the validated retry_loop: on the world (callback state, answer list)
    it produces the same outcome, state, elapsed time, waits and number of calls. *)
 Theorem retry_w_is_retry_loop :
